@@ -478,7 +478,9 @@ type famWrite struct {
 	sort  string
 	deps  map[string]bool // families read to compute derived bases (must not be written in the loop)
 	nonFresh bool         // some write in the loop may hit an object that existed before the loop
+	freshW   bool         // some write in the loop goes to an object allocated in the same iteration
 	subBases []subBase    // locations inside by-value embedded structs of stable bases
+	ranges   []ssa.Value  // stable slice values whose cells are written
 }
 
 type subStep struct {
@@ -514,7 +516,8 @@ func freshInLoop(v ssa.Value, inLoop func(ssa.Value) bool, depth int) bool {
 }
 
 // stableBase: v is defined outside the loop, or is a chain of loads through
-// fields of such a value (`*(&x.f)`); deps collects the field families read.
+// fields / cells of such values (`*(&x.f)`, `*p`); deps collects the families read
+// (they must not be written in the loop for the value to be loop-invariant).
 func stableBase(v ssa.Value, inLoop func(ssa.Value) bool, deps map[string]bool, depth int) bool {
 	if !inLoop(v) {
 		return true
@@ -522,27 +525,41 @@ func stableBase(v ssa.Value, inLoop func(ssa.Value) bool, deps map[string]bool, 
 	if depth > 4 {
 		return false
 	}
-	un, ok := v.(*ssa.UnOp)
-	if !ok || un.Op != token.MUL {
-		return false
+	switch x := v.(type) {
+	case *ssa.UnOp:
+		if x.Op != token.MUL {
+			return false
+		}
+		if fa, ok := x.X.(*ssa.FieldAddr); ok {
+			st := derefType(fa.X.Type())
+			if st == nil {
+				return false
+			}
+			ft := st.Underlying().(*types.Struct).Field(fa.Field).Type()
+			cs := comps(ft)
+			if cs == nil {
+				return false
+			}
+			if !stableBase(fa.X, inLoop, deps, depth+1) {
+				return false
+			}
+			for _, c := range cs {
+				deps[fieldFam(st, fa.Field)+c[0]] = true
+			}
+			return true
+		}
+		cs := comps(x.Type())
+		if cs == nil || !stableBase(x.X, inLoop, deps, depth+1) {
+			return false
+		}
+		for _, c := range cs {
+			deps[cellFam(x.Type())+c[0]] = true
+		}
+		return true
+	case *ssa.FieldAddr:
+		return stableBase(x.X, inLoop, deps, depth+1)
 	}
-	fa, ok := un.X.(*ssa.FieldAddr)
-	if !ok {
-		return false
-	}
-	st := derefType(fa.X.Type())
-	if st == nil {
-		return false
-	}
-	ft := st.Underlying().(*types.Struct).Field(fa.Field).Type()
-	if scalarSort(ft) == "" {
-		return false
-	}
-	if !stableBase(fa.X, inLoop, deps, depth+1) {
-		return false
-	}
-	deps[fieldFam(st, fa.Field)] = true
-	return true
+	return false
 }
 
 // evalStable evaluates a stable base in the loop-entry state.
@@ -554,13 +571,39 @@ func (u *Unit) evalStable(st *State, v ssa.Value) Value {
 	case *ssa.Const, *ssa.Global, *ssa.Function:
 		return u.val(st, v)
 	case *ssa.UnOp:
+		var addr Value
 		if fa, ok := x.X.(*ssa.FieldAddr); ok {
-			base := u.evalStable(st, fa.X)
-			addr := u.fieldAddr(base, derefType(fa.X.Type()), fa.Field)
-			return u.loadAt(st.View(), addr, x.Type())
+			addr = u.fieldAddr(u.evalStable(st, fa.X), derefType(fa.X.Type()), fa.Field)
+		} else {
+			addr = u.evalStable(st, x.X)
 		}
+		return u.loadAt(st.View(), addr, x.Type())
+	case *ssa.FieldAddr:
+		return u.fieldAddr(u.evalStable(st, x.X), derefType(x.X.Type()), x.Field)
 	}
 	return u.val(st, v)
+}
+
+// addRange records writes to cells of the stable slice value sl.
+func (ws *writeSet) addRange(fam, sortv string, sl ssa.Value, deps map[string]bool) {
+	fw := ws.fams[fam]
+	if fw == nil {
+		fw = &famWrite{sort: sortv}
+		ws.fams[fam] = fw
+	}
+	fw.nonFresh = true
+	if fw.deps == nil {
+		fw.deps = map[string]bool{}
+	}
+	for d := range deps {
+		fw.deps[d] = true
+	}
+	for _, r := range fw.ranges {
+		if r == sl {
+			return
+		}
+	}
+	fw.ranges = append(fw.ranges, sl)
 }
 
 type writeSet struct {
@@ -578,7 +621,7 @@ func (ws *writeSet) add(fam, sortv string, base ssa.Value, inLoop func(ssa.Value
 		ws.fams[fam] = fw
 	}
 	if base != nil && freshInLoop(base, inLoop, 0) {
-		fw.whole = true // the family is havocked, but only for objects younger than the loop entry (see runLoopCut)
+		fw.freshW = true // havocked only for objects younger than the loop entry (see runLoopCut)
 		return
 	}
 	fw.nonFresh = true
@@ -736,6 +779,22 @@ func (u *Unit) scanWrites(fr *frame, blocks map[*ssa.BasicBlock]bool, ws *writeS
 							ws.add("G:"+a.Pkg.Pkg.Path()+"."+a.Name()+c[0], ArrSort(SInt, c[1]), nil, inLoop)
 						}
 					}
+				case *ssa.IndexAddr:
+					deps := map[string]bool{}
+					_, isSlice := a.X.Type().Underlying().(*types.Slice)
+					if !isStructType(elem) && isSlice && depth == 0 && !freshInLoop(a.X, inLoop, 0) && stableBase(a.X, inLoop, deps, 0) {
+						for _, c := range comps(elem) {
+							ws.addRange(cellFam(elem)+c[0], ArrSort(SInt, c[1]), a.X, deps)
+						}
+					} else if isStructType(elem) {
+						u.addStructWriteBase(ws, elem, 0, x.Addr, inLoop)
+					} else {
+						var base ssa.Value
+						if freshInLoop(x.Addr, inLoop, 0) {
+							base = x.Addr
+						}
+						u.addTypeWrite(ws, cellFam(elem), elem, base, inLoop)
+					}
 				default:
 					if isStructType(elem) {
 						u.addStructWriteBase(ws, elem, 0, x.Addr, inLoop)
@@ -827,14 +886,9 @@ func (u *Unit) runLoopCut(fr *frame, L *Loop, spec *LoopSpec, entries []edgeStat
 			fw := ws.fams[fam]
 			old := u.heapGet(entrySt, fam, fw.sort)
 			if fw.whole {
-				nh := u.ctx.Fresh("H", fw.sort)
-				head.Heap[fam] = nh
+				head.Heap[fam] = u.ctx.Fresh("H", fw.sort)
 				u.famSort[fam] = fw.sort
 				u.written[fam] = true
-				if !fw.nonFresh && strings.HasPrefix(fw.sort, "(Array Int") {
-					// every write in the loop goes to an object allocated in the same iteration: older objects keep their contents
-					u.assume(head, Term{fmt.Sprintf("(forall ((p Int)) (! (=> (< (objof p) %s) (= (select %s p) (select %s p))) :pattern ((select %s p))))", entrySt.allocTerm().S, nh.S, old.S, nh.S), SBool}, "loop-fresh-frame")
-				}
 				continue
 			}
 			cur := old
@@ -848,6 +902,40 @@ func (u *Unit) runLoopCut(fr *frame, L *Loop, spec *LoopSpec, entries []edgeStat
 					ref = u.subAddr(ref, stp.T, stp.I)
 				}
 				cur = Store(cur, ref, u.ctx.Fresh("hv", arrVal(fw.sort)))
+			}
+			for _, rv := range fw.ranges {
+				sv, ok := u.evalStable(entrySt, rv).(SliceV)
+				if !ok {
+					fw.whole = true
+					break
+				}
+				lo, hi := sv.Off, Arith("+", sv.Off, sv.Len)
+				it := modItem{rngArr: &sv.Arr, rngLo: &lo, rngHi: &hi}
+				cur = u.ctx.Named("H", cur)
+				nh := u.ctx.Fresh("H", fw.sort)
+				u.assume(head, Term{fmt.Sprintf("(forall ((p Int)) (! (=> (not %s) (= (select %s p) (select %s p))) :pattern ((select %s p))))", it.inRange("p"), nh.S, cur.S, nh.S), SBool}, "loop-slice-cells-havoc")
+				cur = nh
+			}
+			if fw.whole {
+				head.Heap[fam] = u.ctx.Fresh("H", fw.sort)
+				u.famSort[fam] = fw.sort
+				u.written[fam] = true
+				continue
+			}
+			if fw.freshW && strings.HasPrefix(fw.sort, "(Array Int") {
+				// writes to objects allocated in the same iteration: older objects keep (the location-wise havocked) contents
+				cur = u.ctx.Named("H", cur)
+				nh := u.ctx.Fresh("H", fw.sort)
+				u.assume(head, Term{fmt.Sprintf("(forall ((p Int)) (! (=> (< (objof p) %s) (= (select %s p) (select %s p))) :pattern ((select %s p))))", entrySt.allocTerm().S, nh.S, cur.S, nh.S), SBool}, "loop-fresh-frame")
+				head.Heap[fam] = nh
+				u.famSort[fam] = fw.sort
+				u.written[fam] = true
+				continue
+			} else if fw.freshW {
+				head.Heap[fam] = u.ctx.Fresh("H", fw.sort)
+				u.famSort[fam] = fw.sort
+				u.written[fam] = true
+				continue
 			}
 			u.heapSet(head, fam, cur)
 		}
